@@ -1,16 +1,100 @@
 package graphsim
 
-// CBLog collects callback events (filled in by the C10 machinery).
+import (
+	"context"
+	"fmt"
+	"io"
+
+	"github.com/cloudwego/eino/callbacks"
+	"github.com/cloudwego/eino/schema"
+)
+
+// CBEvent is one callback invocation seen by a recording handler.
+type CBEvent struct {
+	Seq     int
+	Handler string
+	Timing  string // start, start-stream, end, end-stream, error
+	Name    string // RunInfo.Name
+	Comp    string
+	Tag     string
+	Payload string // canonical payload ("?" if not fully read)
+}
+
+// CBLog collects callback events.
 type CBLog struct {
 	Events []CBEvent
 }
 
-type CBEvent struct {
-	Seq     int
-	Handler string
-	Timing  string
-	Name    string
-	Comp    string
-	Tag     string
-	Payload string
+func isStart(t string) bool { return t == "start" || t == "start-stream" }
+
+// recordingHandler builds a handler that records every invocation. readMode decides what
+// it does with stream payloads: 0 read everything, 1 read one chunk then close, 2 close at once.
+func (e *Env) recordingHandler(id string, readMode int) callbacks.Handler {
+	rec := func(ctx context.Context, info *callbacks.RunInfo, timing, payload string) {
+		ev := CBEvent{Seq: e.Seq(), Handler: id, Timing: timing, Tag: tagOf(ctx), Payload: payload}
+		if info != nil {
+			ev.Name, ev.Comp = info.Name, string(info.Component)
+		}
+		e.Callbacks.Events = append(e.Callbacks.Events, ev)
+		e.S.Log(fmt.Sprintf("cb %s %s %s %s", id, timing, ev.Tag, ev.Name))
+	}
+	stream := func(ctx context.Context, info *callbacks.RunInfo, timing string, sr *schema.StreamReader[any]) {
+		rec(ctx, info, timing, "?")
+		idx := len(e.Callbacks.Events) - 1
+		e.prodN++
+		name := fmt.Sprintf("cb:%s:%s#%d", id, tagOf(ctx), e.prodN)
+		e.S.Go(name, func() {
+			defer sr.Close()
+			if readMode == 2 {
+				e.Probes["handler_closed_copy_at_once"]++
+				return
+			}
+			var acc M
+			for n := 0; ; n++ {
+				if readMode == 1 && n >= 1 {
+					e.Probes["handler_read_prefix"]++
+					return
+				}
+				c, err := sr.Recv()
+				if err == io.EOF {
+					break
+				}
+				if err != nil {
+					e.Callbacks.Events[idx].Payload = "!err"
+					return
+				}
+				if m, ok := c.(M); ok {
+					acc = concatInto(acc, m)
+				}
+			}
+			e.Callbacks.Events[idx].Payload = Canon(acc)
+		})
+	}
+	canonAny := func(v any) string {
+		if m, ok := v.(M); ok {
+			return Canon(m)
+		}
+		return fmt.Sprintf("<%T>", v)
+	}
+	return callbacks.NewHandlerBuilder().
+		OnStartFn(func(ctx context.Context, info *callbacks.RunInfo, in callbacks.CallbackInput) context.Context {
+			rec(ctx, info, "start", canonAny(in))
+			return ctx
+		}).
+		OnEndFn(func(ctx context.Context, info *callbacks.RunInfo, out callbacks.CallbackOutput) context.Context {
+			rec(ctx, info, "end", canonAny(out))
+			return ctx
+		}).
+		OnErrorFn(func(ctx context.Context, info *callbacks.RunInfo, err error) context.Context {
+			rec(ctx, info, "error", firstLine(err.Error()))
+			return ctx
+		}).
+		OnStartWithStreamInputFn(func(ctx context.Context, info *callbacks.RunInfo, in *schema.StreamReader[callbacks.CallbackInput]) context.Context {
+			stream(ctx, info, "start-stream", schema.StreamReaderWithConvert(in, func(c callbacks.CallbackInput) (any, error) { return c, nil }))
+			return ctx
+		}).
+		OnEndWithStreamOutputFn(func(ctx context.Context, info *callbacks.RunInfo, out *schema.StreamReader[callbacks.CallbackOutput]) context.Context {
+			stream(ctx, info, "end-stream", schema.StreamReaderWithConvert(out, func(c callbacks.CallbackOutput) (any, error) { return c, nil }))
+			return ctx
+		}).Build()
 }
